@@ -33,6 +33,20 @@ def main():
         print('INTERNAL: pysmi imported from %s, not from %s' % (pysmi.__file__, core.REPO))
         return 3
 
+    # one scratch directory per run, removed at the end: pool workers are terminated without running their exit handlers, so
+    # what they leave behind is swept here (a nested run - the replay of a violation - works inside its parent's directory)
+    import shutil
+    import tempfile
+    scratch_base = os.environ.get('VERIF_TMP') or ('/dev/shm' if os.path.isdir('/dev/shm') else None)
+    run_tmp = tempfile.mkdtemp(prefix='mcrun', dir=scratch_base)
+    os.environ['VERIF_TMP'] = run_tmp
+    try:
+        return _run(args, core)
+    finally:
+        shutil.rmtree(run_tmp, ignore_errors=True)
+
+
+def _run(args, core):
     try:
         if args.replay:
             return core.replay(args.prop, args.replay, quiet=args.quiet, mode=args.replay_mode)
